@@ -14,6 +14,17 @@ Mirrors (Go names kept, first letter lowered):
 * message level  the `Validate…` functions' state-dependent checks and the handlers of
                  x/metadata/keeper/msg_server.go (WriteScope … AddNetAssetValues)
 
+Addresses: an `Addr` is the TEXT of an address as it appears in a message and in the stored
+scope / specification (a bech32 string).  Different texts can denote the same account (the
+lower-case and the all-upper-case bech32 spelling of the same bytes both pass
+`sdk.AccAddressFromBech32` and every `ValidateBasic`).  `B : Addr → Addr` — the account a text
+denotes, rendered as its canonical text (`sdk.AccAddressFromBech32(a)` followed by `.String()`) —
+is a PARAMETER of the model like `H`; nothing is assumed about it.  The stored lists (owners,
+data access, parties, specification owners) and every comparison the Go code makes on strings
+(`Scope.AddDataAccess`, `RemoveOwners`, `ValidatePartiesAreUnique`, `FindMissing` on
+`OwnerAddresses`, …) are on the TEXT; index keys (`GetAddressScopeCacheKey`, …) and the bank
+module's coin holder are the account, i.e. `B` of the text.
+
 What is abstracted: signature/role validation (x/metadata/keeper/signers.go — the harness signs
 every message with every account, all parties have role OWNER and every specification asks for
 OWNER, so those checks always pass; they belong to C10), audit fields, record
@@ -77,6 +88,17 @@ def reindex {β κ : Type} [DecidableEq β] [DecidableEq κ] (k : κ) (newVals o
   idelAll ((findMissing oldVals newVals).map (fun b => (b, k)))
     (isetAll ((findMissing newVals oldVals).map (fun b => (b, k))) idx)
 
+/-- The same, for an index whose values are DIFFED AS TEXTS (`provutils.FindMissing` on the
+`OwnerAddresses` strings: specification.go:280, 504) while the KEY of an entry is built from
+`f` of the text (`IndexKeys()`: `sdk.AccAddressFromBech32(addrStr)` then
+`GetAddress…CacheKey(addr, id)`; specification.go:285-296, 529-549): the entries of the texts
+that are new are set, then the entries of the texts that are gone are deleted — also when
+another text with the same `f` stays. -/
+def reindexVia {γ β κ : Type} [DecidableEq γ] [DecidableEq β] [DecidableEq κ] (f : γ → β) (k : κ)
+    (newVals oldVals : List γ) (idx : List (β × κ)) : List (β × κ) :=
+  idelAll (((findMissing oldVals newVals).map f).map (fun b => (b, k)))
+    (isetAll (((findMissing newVals oldVals).map f).map (fun b => (b, k))) idx)
+
 /-! ### entities -/
 
 structure SessionId where
@@ -138,17 +160,17 @@ structure State where
   scopeSpecs : List ScopeSpec := []
   contractSpecs : List ContractSpec := []
   recordSpecs : List RecordSpec := []
-  /-- 0x17 `<party address><scope id>` (keys.go:70) -/
+  /-- 0x17 `<party address><scope id>` (keys.go:70); the address is the ACCOUNT (`B` of a text) -/
   idxAddrScope : List (Addr × UUID) := []
   /-- 0x11 `<scope spec id><scope id>` (keys.go:72) -/
   idxSpecScope : List (UUID × UUID) := []
-  /-- 0x19 `<owner address><scope spec id>` (keys.go:75) -/
+  /-- 0x19 `<owner address><scope spec id>` (keys.go:75); the address is the account -/
   idxAddrScopeSpec : List (Addr × UUID) := []
   /-- 0x14 `<contract spec id><scope spec id>` (keys.go:77) -/
   idxCSpecScopeSpec : List (UUID × UUID) := []
-  /-- 0x20 `<owner address><contract spec id>` (keys.go:79) -/
+  /-- 0x20 `<owner address><contract spec id>` (keys.go:79); the address is the account -/
   idxAddrCSpec : List (Addr × UUID) := []
-  /-- the holder of the scope's `nft/scope1…` coin in the bank module (scope.go:201, bank.go:33) -/
+  /-- the holder (an account) of the scope's `nft/scope1…` coin in the bank module (scope.go:201, bank.go:33) -/
   valueOwners : List (UUID × Addr) := []
   /-- 0x22 `<scope id><price denom>` net asset values (keys.go:88) -/
   navs : List (UUID × String) := []
@@ -163,12 +185,18 @@ inductive Err where
 def Err.toString : Err → String
   | .invalid => "err:invalid" | .notfound => "err:notfound" | .other => "err:other"
 
+section
+-- `B`: the account a text denotes (`sdk.AccAddressFromBech32` then `.String()`)
+variable (B : Addr → Addr)
+
 /-! ### scope: keeper level (scope.go) -/
 
-/-- `getScopeIndexValues` (scope.go:331-357): data access first, then owners, each once. -/
-def scopeIndexAddrs (sc : Scope) : List Addr := dedup (sc.dataAccess ++ sc.owners)
+/-- `getScopeIndexValues` (scope.go:336-368): data access first, then owners, each TEXT once
+(`knownAddrs`), each decoded to its account; `getMissingScopeIndexValues` (scope.go:371-388)
+then compares the ACCOUNTS (`FindMissingFunc … a1.Equals(a2)`). -/
+def scopeIndexAddrs (sc : Scope) : List Addr := (dedup (sc.dataAccess ++ sc.owners)).map B
 
-def optAddrs (o : Option Scope) : List Addr := match o with | some sc => scopeIndexAddrs sc | none => []
+def optAddrs (o : Option Scope) : List Addr := match o with | some sc => scopeIndexAddrs B sc | none => []
 def optSpec (o : Option Scope) : List UUID := match o with | some sc => [sc.spec] | none => []
 
 /-- `indexScope(store, newScope, oldScope)` (scope.go:403-420) -/
@@ -181,29 +209,32 @@ def indexScope (st : State) (newScope oldScope : Option Scope) : State :=
       | none, some o => o.id
       | none, none => ""
     { st with
-      idxAddrScope := reindex id (optAddrs newScope) (optAddrs oldScope) st.idxAddrScope
+      idxAddrScope := reindex id (optAddrs B newScope) (optAddrs B oldScope) st.idxAddrScope
       idxSpecScope := reindex id (optSpec newScope) (optSpec oldScope) st.idxSpecScope }
 
 /-- `GetScopeValueOwner` = `bankKeeper.DenomOwner(id.Denom())` -/
 def getScopeValueOwner (st : State) (id : UUID) : Option Addr := (kget (·.1) st.valueOwners id).map (·.2)
 
 /-- `SetScopeValueOwner` (scope.go:227-280): mint+send, send, or send+burn of the scope's coin.
-`""` = no new value owner (burn). Blocked/invalid destinations are never generated. -/
+`""` = no new value owner (burn). Blocked/invalid destinations are never generated.
+`fromAddr.String() == newValueOwner` compares the holder's canonical text with the TEXT given;
+otherwise the coin goes to the account `B newValueOwner`. -/
 def setScopeValueOwner (st : State) (id : UUID) (newValueOwner : String) : State :=
   if newValueOwner = "" then
     match getScopeValueOwner st id with
     | none => st   -- `fromAddr.String() == newValueOwner` (both empty): no change
     | some _ => { st with valueOwners := kdel (·.1) id st.valueOwners }
-  else { st with valueOwners := kput (·.1) (id, newValueOwner) st.valueOwners }
+  else if getScopeValueOwner st id = some newValueOwner then st   -- no change, nothing more to do
+  else { st with valueOwners := kput (·.1) (id, B newValueOwner) st.valueOwners }
 
 /-- `writeScopeToState` (scope.go:144-166) -/
 def writeScopeToState (st : State) (sc : Scope) : State :=
   let oldScope := kget (·.id) st.scopes sc.id
-  indexScope { st with scopes := kput (·.id) sc st.scopes } (some sc) oldScope
+  indexScope B { st with scopes := kput (·.id) sc st.scopes } (some sc) oldScope
 
 /-- `SetScope` (scope.go:126-140) -/
 def setScope (st : State) (sc : Scope) (valueOwner : String) : State :=
-  writeScopeToState (if valueOwner ≠ "" then setScopeValueOwner st sc.id valueOwner else st) sc
+  writeScopeToState B (if valueOwner ≠ "" then setScopeValueOwner B st sc.id valueOwner else st) sc
 
 /-! ### sessions and records: keeper level (session.go, record.go) -/
 
@@ -238,11 +269,11 @@ def removeScope (st : State) (id : UUID) : State :=
   match kget (·.id) st.scopes id with
   | none => st
   | some sc =>
-    let st := setScopeValueOwner st id ""
+    let st := setScopeValueOwner B st id ""
     let recs := st.records.filter (fun r => r.id.scope = id)
     let st := recs.foldl (fun st r => removeRecord st r.id) st
     let st := { st with sessions := st.sessions.filter (fun x => x.id.scope ≠ id) }
-    let st := indexScope st none (some sc)
+    let st := indexScope B st none (some sc)
     { st with scopes := kdel (·.id) id st.scopes }
 
 /-- HISTORICAL: `RemoveScope` as it was BEFORE the repair ab8bb51a7 (scope.go:169-198 at
@@ -252,10 +283,10 @@ def removeScopePreFix (st : State) (id : UUID) : State :=
   match kget (·.id) st.scopes id with
   | none => st
   | some sc =>
-    let st := setScopeValueOwner st id ""
+    let st := setScopeValueOwner B st id ""
     let recs := st.records.filter (fun r => r.id.scope = id)
     let st := recs.foldl (fun st r => removeRecord st r.id) st
-    let st := indexScope st none (some sc)
+    let st := indexScope B st none (some sc)
     { st with scopes := kdel (·.id) id st.scopes }
 
 /-- `RemoveNetAssetValues` (scope.go:914-927) -/
@@ -272,7 +303,8 @@ def optOwnersP (o : Option ScopeSpec) : List Addr := match o with | some s => s.
 def optCSpecs (o : Option ScopeSpec) : List UUID := match o with | some s => s.cspecs | none => []
 def optOwnersC (o : Option ContractSpec) : List Addr := match o with | some s => s.owners | none => []
 
-/-- `indexScopeSpecification` (specification.go:559-577) -/
+/-- `indexScopeSpecification` (specification.go:555-577): the owner entries are diffed as TEXTS
+and keyed by account (`reindexVia`); the contract-specification entries are diffed and keyed by id. -/
 def indexScopeSpecification (st : State) (newSpec oldSpec : Option ScopeSpec) : State :=
   match newSpec, oldSpec with
   | none, none => st
@@ -282,13 +314,13 @@ def indexScopeSpecification (st : State) (newSpec oldSpec : Option ScopeSpec) : 
       | none, some o => o.id
       | none, none => ""
     { st with
-      idxAddrScopeSpec := reindex id (optOwnersP newSpec) (optOwnersP oldSpec) st.idxAddrScopeSpec
+      idxAddrScopeSpec := reindexVia B id (optOwnersP newSpec) (optOwnersP oldSpec) st.idxAddrScopeSpec
       idxCSpecScopeSpec := reindex id (optCSpecs newSpec) (optCSpecs oldSpec) st.idxCSpecScopeSpec }
 
 /-- `SetScopeSpecification` (specification.go:433-452) -/
 def setScopeSpecification (st : State) (sp : ScopeSpec) : State :=
   let oldSpec := kget (·.id) st.scopeSpecs sp.id
-  indexScopeSpecification { st with scopeSpecs := kput (·.id) sp st.scopeSpecs } (some sp) oldSpec
+  indexScopeSpecification B { st with scopeSpecs := kput (·.id) sp st.scopeSpecs } (some sp) oldSpec
 
 /-- `isScopeSpecUsed` (specification.go:580-589): any entry under the spec's 0x11 prefix -/
 def isScopeSpecUsed (st : State) (id : UUID) : Bool := st.idxSpecScope.any (fun p => p.1 = id)
@@ -299,10 +331,11 @@ def removeScopeSpecification (st : State) (id : UUID) : Except Err State :=
   else match kget (·.id) st.scopeSpecs id with
     | none => .error .invalid
     | some sp =>
-      let st := indexScopeSpecification st none (some sp)
+      let st := indexScopeSpecification B st none (some sp)
       .ok { st with scopeSpecs := kdel (·.id) id st.scopeSpecs }
 
-/-- `indexContractSpecification` (specification.go:311-329) -/
+/-- `indexContractSpecification` (specification.go:308-329): owner entries diffed as TEXTS, keyed
+by account (`reindexVia`). -/
 def indexContractSpecification (st : State) (newSpec oldSpec : Option ContractSpec) : State :=
   match newSpec, oldSpec with
   | none, none => st
@@ -311,12 +344,12 @@ def indexContractSpecification (st : State) (newSpec oldSpec : Option ContractSp
       | some n, _ => n.id
       | none, some o => o.id
       | none, none => ""
-    { st with idxAddrCSpec := reindex id (optOwnersC newSpec) (optOwnersC oldSpec) st.idxAddrCSpec }
+    { st with idxAddrCSpec := reindexVia B id (optOwnersC newSpec) (optOwnersC oldSpec) st.idxAddrCSpec }
 
 /-- `SetContractSpecification` (specification.go:218-237) -/
 def setContractSpecification (st : State) (sp : ContractSpec) : State :=
   let oldSpec := kget (·.id) st.contractSpecs sp.id
-  indexContractSpecification { st with contractSpecs := kput (·.id) sp st.contractSpecs } (some sp) oldSpec
+  indexContractSpecification B { st with contractSpecs := kput (·.id) sp st.contractSpecs } (some sp) oldSpec
 
 /-- `isRecordSpecUsed` (specification.go:160-163): `// TODO`, always false -/
 def isRecordSpecUsed (_st : State) (_id : RecSpecId) : Bool := false
@@ -333,7 +366,7 @@ def removeContractSpecification (st : State) (id : UUID) : Except Err State :=
   else match kget (·.id) st.contractSpecs id with
     | none => .error .invalid
     | some sp =>
-      let st := indexContractSpecification st none (some sp)
+      let st := indexContractSpecification B st none (some sp)
       .ok { st with contractSpecs := kdel (·.id) id st.contractSpecs }
 
 /-- `SetRecordSpecification` (specification.go:107-118) -/
@@ -375,7 +408,7 @@ def writeScope (st : State) (sc : Scope) (valueOwner : String) (usdMills : Nat) 
   if !onlyChangeIsValueOwner && !khas (·.id) st.scopeSpecs sc.spec then .error .invalid else
   -- msg.UsdMills > 0: AddSetNetAssetValues(usd) happens before SetScope
   let st := if usdMills > 0 then setNetAssetValue st sc.id "usd" else st
-  .ok (setScope st sc valueOwner)
+  .ok (setScope B st sc valueOwner)
 
 /-- `msgServer.DeleteScope` (msg_server.go:68-89) with `ValidateDeleteScope` (scope.go:524-585);
 `rm` is the keeper's `RemoveScope` (the current one, or the historical pre-fix one). -/
@@ -383,7 +416,7 @@ def deleteScopeWith (rm : State → UUID → State) (st : State) (id : UUID) : E
   if !khas (·.id) st.scopes id then .error .invalid
   else .ok (removeNetAssetValues (rm st id) id)
 
-def deleteScope (st : State) (id : UUID) : Except Err State := deleteScopeWith removeScope st id
+def deleteScope (st : State) (id : UUID) : Except Err State := deleteScopeWith (removeScope B) st id
 
 /-- `Scope.AddDataAccess` (types/scope.go:99-113) -/
 def addDataAccessList (da : List Addr) (addrs : List Addr) : List Addr :=
@@ -396,7 +429,7 @@ def addScopeDataAccess (st : State) (id : UUID) (addrs : List Addr) : Except Err
   | none => .error .notfound
   | some e =>
     if addrs.any (fun a => a ∈ e.dataAccess) then .error .invalid
-    else .ok (setScope st { e with dataAccess := addDataAccessList e.dataAccess addrs } "")
+    else .ok (setScope B st { e with dataAccess := addDataAccessList e.dataAccess addrs } "")
 
 /-- `msgServer.DeleteScopeDataAccess` (msg_server.go:121-146), `ValidateDeleteScopeDataAccess` (scope.go:690-741) -/
 def deleteScopeDataAccess (st : State) (id : UUID) (addrs : List Addr) : Except Err State :=
@@ -405,7 +438,7 @@ def deleteScopeDataAccess (st : State) (id : UUID) (addrs : List Addr) : Except 
   | none => .error .notfound
   | some e =>
     if addrs.any (fun a => a ∉ e.dataAccess) then .error .invalid
-    else .ok (setScope st { e with dataAccess := e.dataAccess.filter (fun a => a ∉ addrs) } "")
+    else .ok (setScope B st { e with dataAccess := e.dataAccess.filter (fun a => a ∉ addrs) } "")
 
 /-- `msgServer.AddScopeOwner` (msg_server.go:149-183), `ValidateUpdateScopeOwners` (scope.go:744-797) -/
 def addScopeOwner (st : State) (id : UUID) (owners : List Addr) : Except Err State :=
@@ -418,7 +451,7 @@ def addScopeOwner (st : State) (id : UUID) (owners : List Addr) : Except Err Sta
       let proposed := { e with owners := e.owners ++ owners }
       if !partiesBasic proposed.owners then .error .invalid
       else if !khas (·.id) st.scopeSpecs proposed.spec then .error .invalid
-      else .ok (setScope st proposed "")
+      else .ok (setScope B st proposed "")
 
 /-- `msgServer.DeleteScopeOwner` (msg_server.go:186-220) -/
 def deleteScopeOwner (st : State) (id : UUID) (owners : List Addr) : Except Err State :=
@@ -431,27 +464,32 @@ def deleteScopeOwner (st : State) (id : UUID) (owners : List Addr) : Except Err 
       let proposed := { e with owners := e.owners.filter (fun a => a ∉ owners) }
       if !partiesBasic proposed.owners then .error .invalid
       else if !khas (·.id) st.scopeSpecs proposed.spec then .error .invalid
-      else .ok (setScope st proposed "")
+      else .ok (setScope B st proposed "")
 
-/-- `SetScopeValueOwners` (scope.go:283-321): every linked scope's coin is sent to the new owner. -/
+/-- `SetScopeValueOwners` (scope.go:283-321): every linked scope's coin is sent to the new owner
+(an ACCOUNT: `toAddr`). -/
 def setScopeValueOwners (st : State) (ids : List UUID) (newValueOwner : Addr) : State :=
   ids.foldl (fun st id => { st with valueOwners := kput (·.1) (id, newValueOwner) st.valueOwners }) st
 
 /-- `msgServer.UpdateValueOwners` (msg_server.go:223-247) with `GetScopeValueOwners`,
-`ValidateUpdateValueOwners` (scope.go:802-819), `AccMDLinks.ValidateForScopes`. -/
+`ValidateUpdateValueOwners` (scope.go:815-840), `AccMDLinks.ValidateForScopes`;
+`GetMDAddrsForAccAddr(proposed)` compares each holder's canonical text with the TEXT proposed
+(types/address.go:1020-1028). -/
 def updateValueOwners (st : State) (ids : List UUID) (newValueOwner : Addr) : Except Err State :=
   if ids.isEmpty then .error .invalid            -- msg.ValidateBasic()
   else if !decide ids.Nodup then .error .invalid -- duplicate metadata address
   else if ids.any (fun id => (getScopeValueOwner st id).isNone) then .error .invalid  -- no account address
   else if ids.any (fun id => getScopeValueOwner st id = some newValueOwner) then .error .invalid
-  else .ok (setScopeValueOwners st ids newValueOwner)
+  else .ok (setScopeValueOwners st ids (B newValueOwner))
 
-/-- `msgServer.MigrateValueOwner` (msg_server.go:250-283); `GetScopesForValueOwner` (bank.go:52-80). -/
+/-- `msgServer.MigrateValueOwner` (msg_server.go:250-283); `GetScopesForValueOwner` (bank.go:52-80)
+of the ACCOUNT `B existing`; every link then has that holder, whose canonical text
+`GetMDAddrsForAccAddr` compares with the TEXT proposed. -/
 def migrateValueOwner (st : State) (existing proposed : Addr) : Except Err State :=
-  let ids := (st.valueOwners.filter (fun p => p.2 = existing)).map (·.1)
+  let ids := (st.valueOwners.filter (fun p => p.2 = B existing)).map (·.1)
   if ids.isEmpty then .error .notfound
-  else if existing = proposed then .error .invalid
-  else .ok (setScopeValueOwners st ids proposed)
+  else if B existing = proposed then .error .invalid
+  else .ok (setScopeValueOwners st ids (B proposed))
 
 /-- `msgServer.WriteSession` (msg_server.go:286-315) with `ValidateWriteSession` (session.go:104-216). -/
 def writeSession (st : State) (x : Session) : Except Err State :=
@@ -515,17 +553,17 @@ def writeScopeSpecification (st : State) (sp : ScopeSpec) : Except Err State :=
   if sp.owners.isEmpty then .error .invalid else      -- ScopeSpecification.ValidateBasic()
   let existing := kget (·.id) st.scopeSpecs sp.id
   if (getNewContractSpecIDs sp existing).any (fun c => !khas (·.id) st.contractSpecs c) then .error .invalid
-  else .ok (setScopeSpecification st sp)
+  else .ok (setScopeSpecification B st sp)
 
 /-- `msgServer.DeleteScopeSpecification` (msg_server.go:403-424) -/
 def deleteScopeSpecification (st : State) (id : UUID) : Except Err State :=
   if !khas (·.id) st.scopeSpecs id then .error .notfound
-  else removeScopeSpecification st id
+  else removeScopeSpecification B st id
 
 /-- `msgServer.WriteContractSpecification` (msg_server.go:427-451) -/
 def writeContractSpecification (st : State) (sp : ContractSpec) : Except Err State :=
   if sp.owners.isEmpty then .error .invalid           -- ContractSpecification.ValidateBasic()
-  else .ok (setContractSpecification st sp)
+  else .ok (setContractSpecification B st sp)
 
 /-- `msgServer.DeleteContractSpecification` (msg_server.go:454-499): all record specifications of
 the contract specification go first (that never fails), then the contract specification; when
@@ -533,7 +571,7 @@ that fails the transaction is rolled back. -/
 def deleteContractSpecification (st : State) (id : UUID) : Except Err State :=
   if !khas (·.id) st.contractSpecs id then .error .notfound else
   let st := { st with recordSpecs := st.recordSpecs.filter (fun r => r.id.cspec ≠ id) }
-  removeContractSpecification st id
+  removeContractSpecification B st id
 
 /-- `msgServer.AddContractSpecToScopeSpec` (msg_server.go:502-527) -/
 def addContractSpecToScopeSpec (st : State) (cspec sspec : UUID) : Except Err State :=
@@ -542,7 +580,7 @@ def addContractSpecToScopeSpec (st : State) (cspec sspec : UUID) : Except Err St
   | none => .error .notfound
   | some sp =>
     if cspec ∈ sp.cspecs then .error .invalid
-    else .ok (setScopeSpecification st { sp with cspecs := sp.cspecs ++ [cspec] })
+    else .ok (setScopeSpecification B st { sp with cspecs := sp.cspecs ++ [cspec] })
 
 /-- `msgServer.DeleteContractSpecFromScopeSpec` (msg_server.go:530-563) -/
 def deleteContractSpecFromScopeSpec (st : State) (cspec sspec : UUID) : Except Err State :=
@@ -550,7 +588,7 @@ def deleteContractSpecFromScopeSpec (st : State) (cspec sspec : UUID) : Except E
   | none => .error .notfound
   | some sp =>
     if cspec ∉ sp.cspecs then .error .notfound
-    else .ok (setScopeSpecification st { sp with cspecs := sp.cspecs.filter (fun c => c ≠ cspec) })
+    else .ok (setScopeSpecification B st { sp with cspecs := sp.cspecs.filter (fun c => c ≠ cspec) })
 
 /-- `msgServer.WriteRecordSpecification` (msg_server.go:566-601), `ValidateWriteRecordSpecification`
 (specification.go:139-158). The id is `RecordSpecMetadataAddress(cspec, name)` (ValidateBasic). -/
@@ -609,22 +647,22 @@ inductive Op where
 def applyOpWith (rm : State → UUID → State) (H : String → NameKey) (st : State) (op : Op) :
     Except Err State :=
   match op with
-  | .writeScopeSpec sp => writeScopeSpecification st sp
-  | .deleteScopeSpec id => deleteScopeSpecification st id
-  | .writeContractSpec sp => writeContractSpecification st sp
-  | .deleteContractSpec id => deleteContractSpecification st id
-  | .addCSpecToScopeSpec c p => addContractSpecToScopeSpec st c p
-  | .delCSpecFromScopeSpec c p => deleteContractSpecFromScopeSpec st c p
+  | .writeScopeSpec sp => writeScopeSpecification B st sp
+  | .deleteScopeSpec id => deleteScopeSpecification B st id
+  | .writeContractSpec sp => writeContractSpecification B st sp
+  | .deleteContractSpec id => deleteContractSpecification B st id
+  | .addCSpecToScopeSpec c p => addContractSpecToScopeSpec B st c p
+  | .delCSpecFromScopeSpec c p => deleteContractSpecFromScopeSpec B st c p
   | .writeRecordSpec c n => writeRecordSpecification H st c n
   | .deleteRecordSpec c n => deleteRecordSpecification H st c n
-  | .writeScope sc vo m => writeScope st sc vo m
+  | .writeScope sc vo m => writeScope B st sc vo m
   | .deleteScope id => deleteScopeWith rm st id
-  | .addDataAccess id a => addScopeDataAccess st id a
-  | .delDataAccess id a => deleteScopeDataAccess st id a
-  | .addOwners id a => addScopeOwner st id a
-  | .delOwners id a => deleteScopeOwner st id a
-  | .updateValueOwners ids to => updateValueOwners st ids to
-  | .migrateValueOwner a b => migrateValueOwner st a b
+  | .addDataAccess id a => addScopeDataAccess B st id a
+  | .delDataAccess id a => deleteScopeDataAccess B st id a
+  | .addOwners id a => addScopeOwner B st id a
+  | .delOwners id a => deleteScopeOwner B st id a
+  | .updateValueOwners ids to => updateValueOwners B st ids to
+  | .migrateValueOwner a b => migrateValueOwner B st a b
   | .writeSession x => writeSession st x
   | .writeRecord sid n g => writeRecord H st sid n g
   | .deleteRecord s n => deleteRecord H st s n
@@ -633,23 +671,25 @@ def applyOpWith (rm : State → UUID → State) (H : String → NameKey) (st : S
 
 /-- the code as it is -/
 def applyOp (H : String → NameKey) (st : State) (op : Op) : Except Err State :=
-  applyOpWith removeScope H st op
+  applyOpWith B (removeScope B) H st op
 
 /-- a failed message leaves the state unchanged (the transaction is rolled back) -/
 def stepWith (rm : State → UUID → State) (H : String → NameKey) (st : State) (op : Op) : State :=
-  match applyOpWith rm H st op with
+  match applyOpWith B rm H st op with
   | .ok st' => st'
   | .error _ => st
 
 def runWith (rm : State → UUID → State) (H : String → NameKey) (st : State) (ops : List Op) : State :=
-  ops.foldl (stepWith rm H) st
+  ops.foldl (stepWith B rm H) st
 
 /-- a history of messages on the code as it is -/
-def run (H : String → NameKey) (st : State) (ops : List Op) : State := runWith removeScope H st ops
+def run (H : String → NameKey) (st : State) (ops : List Op) : State := runWith B (removeScope B) H st ops
 
 /-- HISTORICAL: a history of messages on the code before the repair ab8bb51a7 -/
 def runPreFix (H : String → NameKey) (st : State) (ops : List Op) : State :=
-  runWith removeScopePreFix H st ops
+  runWith B (removeScopePreFix B) H st ops
+
+end
 
 /-- the empty store -/
 def State.empty : State := {}
